@@ -96,6 +96,7 @@ const poisonKey = "\x00written-by-a-handler"
 type routerSession struct {
 	f       *flamego.Flame
 	handles map[int]*flamego.Route
+	combos  map[int]*flamego.ComboRoute // registrations made through Combo (no *Route handle: named through the combo)
 	named   map[int]bool
 	exprs   map[int]map[string]*regexp.Regexp // hid → bind name → ^(?:its own expression)$ (EngineLaws monitor)
 	nested  []string                          // method and path of a request to be served from inside the next request's middleware
@@ -148,6 +149,7 @@ func execRouter(args []string, lines [][]string) []string {
 	s := &routerSession{
 		f:       flamego.NewWithLogger(io.Discard),
 		handles: map[int]*flamego.Route{},
+		combos:  map[int]*flamego.ComboRoute{},
 		named:   map[int]bool{},
 		exprs:   map[int]map[string]*regexp.Regexp{},
 		trees:   map[string]flamego.VerifTree{},
@@ -215,6 +217,9 @@ func (s *routerSession) op(l []string) (out string) {
 		if len(l) != 3 {
 			return "bad-op"
 		}
+		if c, ok := s.combos[atoi(l[1])]; ok {
+			return okErr(func() { c.Name(unhx(l[2])) })
+		}
 		rt, ok := s.handles[atoi(l[1])]
 		if !ok {
 			return "err"
@@ -267,6 +272,9 @@ func okErr(f func()) (out string) {
 }
 
 func (s *routerSession) add(hid int, methods, text string) string {
+	// "combo:GET,POST": the same registration through Combo(text).Get(h).Post(h), named through ComboRoute.Name
+	combo := strings.HasPrefix(methods, "combo:")
+	methods = strings.TrimPrefix(methods, "combo:")
 	h := func(c flamego.Context) {
 		if s.cur == nil {
 			return
@@ -304,6 +312,17 @@ func (s *routerSession) add(hid int, methods, text string) string {
 	var rt *flamego.Route
 	res := okErr(func() {
 		switch {
+		case combo:
+			c := s.f.Combo(text)
+			for _, m := range strings.Split(methods, ",") {
+				verb, ok := map[string]func(...flamego.Handler) *flamego.ComboRoute{"GET": c.Get, "POST": c.Post, "PUT": c.Put, "DELETE": c.Delete,
+					"PATCH": c.Patch, "OPTIONS": c.Options, "HEAD": c.Head, "CONNECT": c.Connect, "TRACE": c.Trace}[m]
+				if !ok {
+					panic("combo: no such verb " + m)
+				}
+				verb(h)
+			}
+			s.combos[hid] = c
 		case methods == "*":
 			rt = s.f.Any(text, h)
 		case strings.Contains(methods, ","):
@@ -312,6 +331,12 @@ func (s *routerSession) add(hid int, methods, text string) string {
 			rt = s.f.Route(methods, text, []flamego.Handler{h})
 		}
 	})
+	if res == "ok" && combo {
+		s.exprs[hid] = bindExprs(text)
+		if okErr(func() { s.combos[hid].Name(fmt.Sprintf("r%d", hid)) }) == "ok" {
+			s.named[hid] = true
+		}
+	}
 	if res == "ok" && rt != nil {
 		s.exprs[hid] = bindExprs(text)
 		s.handles[hid] = rt
